@@ -17,7 +17,7 @@ from .. import wbk
 
 ID = 'C04'
 LEVEL = 'exploration'
-BUDGET_S = {'quick': 180, 'thorough': 1800}
+BUDGET_S = {'quick': 300, 'thorough': 1800}
 RULE = ('stateful: a history = generated workbook + sequence of set_cells batches and queries (<= 12 steps); at every query every cell '
         'of the used range and every overridden cell is compared with a fresh translation of the edited workbook; a case = one history '
         'prefix ending in a query; non-trivial = the history wrote some cell at least twice with different values, or overrode a formula '
